@@ -39,6 +39,8 @@ Sgn(n) == IF n < 0 THEN -1 ELSE IF n > 0 THEN 1 ELSE 0
 
 SampleVal(s) == CASE s.k = "f"    -> I(s.v)
                   [] s.k = "nan"  -> NaNV
+                  [] s.k = "nan2" -> NaNV            \* a NaN of another bit pattern is a NaN
+                  [] s.k = "nz"   -> I(0)            \* negative zero is zero
                   [] s.k = "pinf" -> PInf
                   [] s.k = "ninf" -> NInf
                   [] OTHER        -> Opaque
@@ -194,8 +196,10 @@ Kernel(fn, s) ==
     \* a NaN is skipped as soon as the window also holds a number
     [] fn = "max_over_time"     -> MaxVal(s)
     [] fn = "min_over_time"     -> MinVal(s)
-    [] fn = "changes"           -> IF AllInt(s) THEN I(Cardinality({i \in 2..Len(s) : s[i].v # s[i-1].v})) ELSE Opaque
-    [] fn = "resets"            -> IF AllInt(s) THEN I(Cardinality({i \in 2..Len(s) : s[i].v < s[i-1].v})) ELSE Opaque
+    \* (values compared as values: a NaN after a NaN is no change, an infinity after the same infinity neither;
+    \*  nothing is smaller than a NaN and a NaN is smaller than nothing)
+    [] fn = "changes"           -> IF \A i \in 1..Len(s) : s[i].k # "op" THEN I(Cardinality({i \in 2..Len(s) : s[i] # s[i-1]})) ELSE Opaque
+    [] fn = "resets"            -> IF \A i \in 1..Len(s) : s[i].k # "op" THEN I(Cardinality({i \in 2..Len(s) : Cmp("<", s[i], s[i-1]) = "T"})) ELSE Opaque
     [] OTHER                    -> Opaque
 
 \* ------------------------------------------------------------------ node typing
